@@ -114,11 +114,15 @@ struct x_derived_exit
     typedef Back<Top_> Top;
 };
 template <class M> void x_drive_derived() { M m; m.start(); m.process_event(x_mi()); m.stop(); }
+// assignment of a machine with exit points: instantiates exit_pt::operator= (rule C15.keep: the forwarder stays)
+template <class M> void x_assign() { M a; M b; a.start(); b = a; b.process_event(x_mi()); }
 void x_use_derived()
 {
     x_drive_derived<x_derived_exit<x_back_be>::Top>();
     x_drive_derived<x_derived_exit<x_mp11_be>::Top>();
     x_drive_derived<x_derived_exit<x_mp11_fct_be>::Top>();
+    x_assign<x_derived_exit<x_back_be>::Top>();
+    x_assign<x_derived_exit<x_back11_be>::Top>();
 }
 }
 int main() { return 0; }
